@@ -2,12 +2,12 @@ package main
 
 import (
 	"fmt"
-	"sort"
 	"go/constant"
 	"go/token"
 	"go/types"
 	"math/big"
 	"regexp"
+	"sort"
 	"strings"
 )
 
